@@ -50,7 +50,9 @@ CLAIMS = {
              "owns the user under its nick (C02_one_owner, C02_connection_owns); whatever connection i sends and however it ends, no OTHER connection gains, loses or changes a nick - except "
              "that its user disappears when that connection itself is closed by the step (KILL/DIE) (C02_acts_only_as_itself); a connection that is not registered - refused with 433, 464 or a "
              "mask mismatch, or never completed - leaves the ENTIRE shared state identical whatever it sends and however it ends; the only other outcome is its own accepted registration "
-             "under a nick nobody owned (C02_unregistered_inert).",
+             "under a nick nobody owned (C02_unregistered_inert); schedules and faults: for EVERY sequence of events processed without delivering pending KILLs, interleaved in any way with the moments at which "
+             "a marked connection's task finally ends (or never does), ownership is the same bijection - a killed connection that has not noticed yet keeps its nick, and its late teardown removes its own record only "
+             "(C02_deferred_kill_ownership, C02_late_teardown_own_only); the real-binary scenario 'KILL of a connection stuck writing to a client that does not read' exhibits that schedule on every run.",
         design_ref="5 (C02)"),
     "C04": dict(
         technique="Coq proof (membership symmetry and rank-list clauses of the global invariant in every reachable world; fold-to-filter characterisation of the NAMES and WHOIS texts; single-operation effect lemmas) + differential traces with a three-view (NAMES/WHO/WHOIS) agreement oracle, a KICK/JOIN/PART/NICK announcement oracle and list-KICK histories",
@@ -71,7 +73,9 @@ CLAIMS = {
     "C08": dict(
         technique="Coq proof (mode_char / mode_chars frame and effect lemmas, rank sufficiency, refusal inertness) + exhaustive letter x sign x rank sweep against the real server with an announcement-replay oracle",
         text="Theorems (props/C08.v) for ALL channels, ranks and mode strings: which rank each letter requires, that a refused letter changes nothing, that an accepted flag/rank/list/param letter "
-             "has exactly its documented effect on the channel and nothing else, and that outsiders are refused; 'exactly as announced' for the flags: for any number of groups, letters and sign switches, a flag letter in the announced '+' group is set in the new channel, one in the '-' group is clear, none is in both, a flag not announced is as it was, and the line goes to every member (C08_flags_as_announced). The parameter part of the announcement (+l/+k/lists/ranks) is tied to the effect on every run by replaying the broadcast "
+             "has exactly its documented effect on the channel and nothing else, and that outsiders are refused; 'exactly as announced' for the flags: for any number of groups, letters and sign switches, a flag letter in the announced '+' group is set in the new channel, one in the '-' group is clear, none is in both, a flag not announced is as it was, and the line goes to every member (C08_flags_as_announced). The parameter part, letter by letter: an accepted rank letter appends exactly ' <sign><letter> <nick>' and touches neither flag group, one the actor may not use or naming a non-member announces and changes nothing "
+             "(C08_rank_announced, C08_rank_silent); an accepted ban / exception / invite-exception edit changes exactly that list by exactly the normalised mask and appends exactly ' <sign><letter> <mask>', a refused one gives 482, announces nothing and leaves the channel record as it is "
+             "(C08_list_announced, C08_list_refused). That the assembled string (with the +l/+k entries, which are edited in place) replays to the new channel is tied to the effect on every run by replaying the broadcast "
              "MODE line onto the previous dump and comparing with the new dump.",
         design_ref="5 (C08)"),
     "C11": dict(
@@ -132,7 +136,8 @@ CLAIMS = {
              "connection exactly pong_timeout later - whatever else is sent meanwhile and also when further PINGs fall into the wait (pong_timeout >= ping_timeout); a peer that answers every PING (any token) "
              "in less than pong_timeout is never closed, for every horizon; the keep-alive closes only at a PING time plus pong_timeout; other traffic neither resets nor delays the timer; the timeout is "
              "handled in every reachable world by the same teardown as every other ending (C06) and preserves the invariant. The timers themselves are tokio's: the model is tied on every run by 27+ real-time "
-             "scenarios (3-7 timeout configurations x 9 response patterns) whose observed PING/PONG times are fed to ka_run and whose disconnection must agree within the stated slack.",
+             "scenarios (3-7 timeout configurations x 11 response patterns, incl. registration later than ping_timeout and capability negotiation in mid-session) whose observed PING/PONG times are fed to ka_run and whose disconnection must agree within the stated slack. "
+             "A registered connection's PING line is answered with the PONG and its PONG line is accepted silently whatever its capability-negotiation state (C17_registered_ping_line, C17_registered_pong_line).",
         design_ref="5 (C17)",
         note="Partial at proof level: real time, tokio sleep/interval/timeout and task scheduling are outside the model; the scenarios sample them."),
     "C18": dict(
@@ -168,7 +173,7 @@ CLAIMS = {
         text="Theorems (props/C10.v), for ALL channels, senders and sources: can_send holds iff (member or neither +n nor +s) and not (some ban mask globs the source and no exception does) and "
              "(not +m or voice-or-higher), with mask matching proved equal to glob (C14); a channel target is delivered to the C01 audience iff can_send, otherwise nobody receives it and a "
              "PRIVMSG sender gets exactly one 404 (NOTICE: nothing); every line queued by a NOTICE command is the relayed NOTICE itself - no numeric, for all target lists (C10_notice_silent); "
-             "PRIVMSG to an away user adds exactly the 301 with the away text, NOTICE does not.",
+             "PRIVMSG to an away user adds exactly the 301 with the away text, NOTICE does not; that text is the one of the user's LAST AWAY command - AWAY overwrites, AWAY without text clears, nothing else changes (C10_away_is_last_sent).",
         design_ref="5 (C10)"),
     "C14": dict(
         technique="Coq proof (greedy segment matcher = textbook glob, by induction over the segment list) + exhaustive/random differential run of the model and of the extracted glob spec against the real match_wildcard",
